@@ -14,7 +14,7 @@ Lemma wk_jb s v : WL s v -> WK s v -> wpages s = [] ->
   JB s /\ wal_chk s = [] /\ (forall p, 1 <= p <= pageN s -> p <> lockpg s -> file_h s p = v p).
 Proof.
   intros HW HK Ep. pose proof (wk_file s v HW HK Ep) as Hf.
-  destruct HW as [Ww Wm Wl Wc Wz Wv Wt Wk]. destruct HK as [k_scan0 k_last0 k_hash0 k_keys0 k_truth0 k_empty0 k_pos0 k_nodup0].
+  destruct HW as [Ww Wm Wl Wc Wz Wv Wt Wk]. destruct HK as [k_scan0 k_last0 k_hash0 k_keys0 k_truth0 k_empty0 k_pos0 k_nodup0 k_in0].
   pose proof (k_empty0 Ep) as Hk0.
   assert (Hd : forall p, 1 <= p <= pageN s -> p <> lockpg s -> dbc s p = v p).
   { intros p Hp Hnl. rewrite <- (Wv p Hp Hnl). rewrite eff_cases by (assumption || lia). rewrite Hk0. reflexivity. }
@@ -170,6 +170,7 @@ Proof.
   - destruct (writeable s && (pageN s =? 0) && match dbfile s with [] => true | _ :: _ => false end).
     + unfold op_invalidate_journal in H. inversion H; subst. exact Hk.
     + destruct (commit_journal_fields s commit s' H) as [_ [_ [_ [E _]]]]. exact E.
+  - inversion H; subst. exact Hk.
   - unfold op_zero_fill in H. inversion H; subst. exact Hk.
 Qed.
 Lemma run_group_nochk : forall ops s s', Forall jop ops -> run_group s ops = (0, s') -> wal_chk s = [] -> wal_chk s' = [].
@@ -474,7 +475,7 @@ Lemma g_history_example :
   let pg h n := mkPg (fl h) n false in
   let pw h n := mkPg (fl h) n true in
   let x3 a b c := fl (N.lxor (N.lxor (fl a) (fl b)) (fl c)) in
-  let gs := [GJ (HTx [] [AWrite 1 (pg 11 2); AWrite 2 (pg 12 0)] 2);
+  let gs := [GJ (HTx [] [AWrite 1 (pg 11 2); AWrite 2 (pg 19 0); AFail 2; AWrite 2 (pg 12 0)] 2);
              GRestart;
              GSwitch [] [AWrite 1 (pw 13 2)] 2;
              GW (W2Commit [(1, pw 14 3); (3, pw 33 0); (2, pw 23 0)] 3);
